@@ -104,6 +104,82 @@ func signBytesFn(c *Ctx, name, canon string) {
 	}
 }
 
+// commitVoteRules: a commit is the precommits of its round with the per-vote fields factored out, and the vote rebuilt
+// from it must be the vote that was signed — for a precommit for the block as well as for a precommit for nil. Shared
+// by C11 (the verified bytes are the signed bytes), C02 (VerifyCommit counts signatures over these bytes) and C04 (the
+// commit of height H, which may contain a correct validator's nil precommit, must verify in every block of H+1).
+func commitVoteRules(c *Ctx) {
+	pc := c.P.Const("proto/kardiachain/types", "PrecommitType")
+	flagCommit, flagNil, flagAbsent := c.P.Const("types", "BlockIDFlagCommit"), c.P.Const("types", "BlockIDFlagNil"), c.P.Const("types", "BlockIDFlagAbsent")
+	if fn := c.Fn("types", "Commit", "GetVote"); fn != nil {
+		want := map[string]string{"Type": `^const:` + pc + `$`, "Height": `^commit\.Height$`, "Round": `^commit\.Round$`,
+			"BlockID": `^call:\(types\.CommitSig\)\.BlockID\(commit\.Signatures\[valIdx\], commit\.BlockID\)$`, "Timestamp": `^commit\.Signatures\[valIdx\]\.Timestamp$`,
+			"Signature": `^commit\.Signatures\[valIdx\]\.Signature$`, "ValidatorAddress": `^commit\.Signatures\[valIdx\]\.ValidatorAddress$`, "ValidatorIndex": `^valIdx$`}
+		got := map[string]string{}
+		for _, in := range findInstrs(fn, StoreTo(`^&alloc:complit:types\.Vote\.`)) {
+			st := in.(*ssa.Store)
+			f := pathOf(st.Addr)
+			got[f[strings.LastIndex(f, ".")+1:]] = pathOf(st.Val)
+		}
+		var fs []string
+		for f := range want {
+			fs = append(fs, f)
+		}
+		sort.Strings(fs)
+		for _, f := range fs {
+			c.Check("F", fnName(fn)+"/reconstructed precommit field "+f, re(want[f]).MatchString(got[f]), fn.Pos(), 1, "filled from "+got[f])
+		}
+	}
+	// flag -> block id of the rebuilt vote: the commit's id only for the commit flag, the zero id for nil and absent
+	if fn := c.Fn("types", "CommitSig", "BlockID"); fn != nil {
+		okC, okZ, n := false, 0, 0
+		for _, in := range findInstrs(fn, AnyReturn()) {
+			for _, pcase := range phiCases(in.(*ssa.Return).Results[0]) {
+				n++
+				v := pathOf(pcase.Val)
+				switch {
+				case v == "commitBlockID" && hasCond(pcase.Conds, `^\(cs\.BlockIDFlag == const:`+flagCommit+`\)=T$`):
+					okC = true
+				case v == "nil" && (hasCond(pcase.Conds, `^\(cs\.BlockIDFlag == const:`+flagNil+`\)=T$`) || hasCond(pcase.Conds, `^\(cs\.BlockIDFlag == const:`+flagAbsent+`\)=T$`)):
+					okZ++
+				default:
+					c.Bad("T", fnName(fn)+"/block id per flag: commit flag gives the commit's id, nil and absent give the zero id", instrPos(in), n, "value "+v+" under "+strings.Join(pcase.Conds, " & "))
+					return
+				}
+			}
+		}
+		c.Check("T", fnName(fn)+"/block id per flag: commit flag gives the commit's id, nil and absent give the zero id", okC && okZ == 2 && n == 3, fn.Pos(), n, "")
+	}
+	// vote -> flag: a complete id gives the commit flag, the zero id the nil flag
+	if fn := c.Fn("types", "Vote", "CommitSig"); fn != nil {
+		okC, okN, n := false, false, 0
+		var fields = map[string]string{}
+		for _, in := range findInstrs(fn, StoreTo(`^&alloc:complit:types\.CommitSig\.`)) {
+			st := in.(*ssa.Store)
+			f := pathOf(st.Addr)
+			f = f[strings.LastIndex(f, ".")+1:]
+			fields[f] = pathOf(st.Val)
+			if f != "BlockIDFlag" {
+				continue
+			}
+			for _, pcase := range phiCases(st.Val) {
+				n++
+				v := pathOf(pcase.Val)
+				switch {
+				case v == "const:"+flagCommit && hasCond(pcase.Conds, `^call:\(types\.BlockID\)\.IsComplete\(vote\.BlockID\)=T$`):
+					okC = true
+				case v == "const:"+flagNil && hasCond(pcase.Conds, `^call:\(\*types\.BlockID\)\.IsZero\(&vote\.BlockID\)=T$`):
+					okN = true
+				}
+			}
+		}
+		c.Check("T", fnName(fn)+"/flag per vote: complete id gives the commit flag, zero id the nil flag", okC && okN && n == 2, fn.Pos(), n, "")
+		for _, f := range []string{"ValidatorAddress", "Timestamp", "Signature"} {
+			c.Check("F", fnName(fn)+"/commit signature field "+f+" from the vote", fields[f] == "vote."+f, fn.Pos(), 1, fields[f])
+		}
+	}
+}
+
 func runC11(c *Ctx) {
 	c.Decided = []string{
 		"every field of the canonical vote/proposal (chain id, type, height, round, POL round, block id, timestamp) is filled from the corresponding field of the message being signed or verified; proposal type constant differs from the vote types",
@@ -149,25 +225,7 @@ func runC11(c *Ctx) {
 		n := len(findInstrs(fn, CallTo(`^types\.VoteSignBytes$`, `^types\.VoteSignBytes\(chainID, call:\(\*types\.Vote\)\.ToProto\(call:\(\*types\.Commit\)\.GetVote\(commit, valIdx\)\)\)$`)))
 		c.Check("S", fnName(fn)+"/is VoteSignBytes(chainID, commit.GetVote(valIdx).ToProto())", n == 1, fn.Pos(), n, "")
 	}
-	if fn := c.Fn("types", "Commit", "GetVote"); fn != nil {
-		want := map[string]string{"Type": `^const:` + pc + `$`, "Height": `^commit\.Height$`, "Round": `^commit\.Round$`,
-			"BlockID": `^call:\(types\.CommitSig\)\.BlockID\(commit\.Signatures\[valIdx\], commit\.BlockID\)$`, "Timestamp": `^commit\.Signatures\[valIdx\]\.Timestamp$`,
-			"Signature": `^commit\.Signatures\[valIdx\]\.Signature$`, "ValidatorAddress": `^commit\.Signatures\[valIdx\]\.ValidatorAddress$`, "ValidatorIndex": `^valIdx$`}
-		got := map[string]string{}
-		for _, in := range findInstrs(fn, StoreTo(`^&alloc:complit:types\.Vote\.`)) {
-			st := in.(*ssa.Store)
-			f := pathOf(st.Addr)
-			got[f[strings.LastIndex(f, ".")+1:]] = pathOf(st.Val)
-		}
-		var fs []string
-		for f := range want {
-			fs = append(fs, f)
-		}
-		sort.Strings(fs)
-		for _, f := range fs {
-			c.Check("F", fnName(fn)+"/reconstructed precommit field "+f, re(want[f]).MatchString(got[f]), fn.Pos(), 1, "filled from "+got[f])
-		}
-	}
+	commitVoteRules(c)
 	if fn := c.Fn("consensus", "ConsensusState", "setProposal"); fn != nil {
 		c.Guarded(fn, "cs.Proposal = proposal", StoreTo(`^&cs\.RoundState\.Proposal$`),
 			G("VerifySignature(proposer address, Keccak256(ProposalSignBytes(chainID, proposal.ToProto())), proposal.Signature)",
